@@ -782,6 +782,13 @@ func (g *GhostDB) execInsert(st *State, stmt *SQLStmt, t *Table, base *sqlEnv, s
 	rows := g.countTerm(srcVer, "sql."+sqlHash(sel.Where), whereParams(g, st, sel.Where, base.params))
 	st.assume(Ge(rows, IntLit(0)))
 	g.lastSetHit = &setHit{table: src, pre: srcVer, hit: func(st *State, k, old Term) Term { h, _ := hitAt(st, k); return h }, rows: rows}
+	if stmt.HasConflict {
+		// ON CONFLICT ... DO NOTHING / DO UPDATE: a selected row whose key is taken is skipped, not an error;
+		// the number of rows inserted is anything between 0 and the number selected
+		ins := g.x.sym.Fresh("sql.inserted", SInt)
+		st.assume(And(Ge(ins, IntLit(0)), Le(ins, rows)))
+		return ins
+	}
 	return rows
 }
 
